@@ -42,7 +42,7 @@ func c11Identity(d *vDev) (string, error) {
 
 func TestVerif_C11_Derivations(t *testing.T) {
 	acct := vacct.Get("C11")
-	vacct.RapidCheck(t, vacct.N(500, 60000), func(rt *rapid.T) {
+	vacct.RapidCheck(t, vacct.N(500, 400000), func(rt *rapid.T) {
 		var trace []string
 		fail := func(id, f string, a ...any) {
 			msg := fmt.Sprintf(f, a...)
@@ -223,7 +223,7 @@ func c11Marshal(k crypto.PrivKey) []byte {
 
 func TestVerif_C11_ImportGuards(t *testing.T) {
 	acct := vacct.Get("C11")
-	vacct.RapidCheck(t, vacct.N(300, 30000), func(rt *rapid.T) {
+	vacct.RapidCheck(t, vacct.N(300, 200000), func(rt *rapid.T) {
 		src := vNewDev("src", 4, 4)
 		a, b, err := src.s.ExportAccountKeysForBackup()
 		if err != nil {
